@@ -21,13 +21,22 @@ def minutes(t):
     return int((t - EPOCH) // pd.Timedelta(minutes=1))
 
 
+NAN_MIL = -199999937           # what a NaN / infinite figure reported by the implementation is recorded as (never equal to a real one)
+
+
 def mil(x):
-    """float currency -> integer mils (nearest)."""
-    return int(round(float(x) * 1000.0))
+    """float currency -> integer mils (nearest); NaN / inf -> NAN_MIL, so that it is compared (and differs), not crashed on."""
+    x = float(x)
+    if x != x or x in (float("inf"), float("-inf")):
+        return NAN_MIL
+    return int(round(x * 1000.0))
 
 
 def cur(m):
     return m / 1000.0
+
+
+NO_QUOTE = 1000000007          # mils; stands for "no quote" (NaN) in a recorded `price` call
 
 
 class StubHandler(object):
@@ -216,7 +225,9 @@ class BrokerRig(object):
             elif op == "update":
                 b.update(self.ts(c["t"]))
             elif op == "price":
-                self.handler.set(c["asset"], cur(c["bid"]), cur(c["ask"]))
+                # NO_QUOTE (a sentinel no real quote reaches): the data handler has no price at all for the asset - NaN
+                self.handler.set(c["asset"], float("nan") if c["bid"] == NO_QUOTE else cur(c["bid"]),
+                                 float("nan") if c["ask"] == NO_QUOTE else cur(c["ask"]))
             elif op == "pf_sub":
                 b.portfolios[c["pid"]].subscribe_funds(self.tsz(c["t"]), cur(c["a"]))
             elif op == "pf_wd":
